@@ -10,7 +10,7 @@ import PkgProofs.Lemmas.Ord
 3. sorting: `sortBy` is a sorted permutation, hence permutation invariant for a total antisymmetric order;
 4. `splitOn` / `join`.
 -/
-namespace SS
+namespace SSet
 open Py V S
 
 /-! ## 0. `Except` plumbing -/
@@ -619,4 +619,4 @@ theorem parseAll_append (x y : List Str) :
       simp only [ih]
       cases parseAll cs <;> cases parseAll y <;> simp
 
-end SS
+end SSet
